@@ -40,3 +40,65 @@ Example C10_example :
   open_meta ([5; 5] ++ le_bytes 8 300 ++ [4] ++ le_bytes 8 77 ++ le_bytes 4 1983008076)
   = Done (mk_meta FormatV1 300 4 77 0).
 Proof. vm_compute. reflexivity. Qed.
+
+(* ================= identical results =================
+   Any two well-formed stores with the same content — whatever their trailer version, block
+   boundaries, index depth or codec — answer every admissible history of cursor operations with the
+   same results, and every range and prefix query (forward and reverse) with the same entries: all
+   are functions of the content alone. *)
+From Grenad.model Require Import Spec Iter Writer.
+From Grenad.proofs Require Import ReaderRefine WriterStore IterRefine V1Same.
+
+Theorem C10_same_content_same_histories : forall ld1 ld2 root1 root2 levels1 levels2 bs1 bs2,
+  wf_store ld1 root1 levels1 bs1 -> wf_store ld2 root2 levels2 bs2 ->
+  forall es, content root1 levels1 bs1 = es -> content root2 levels2 bs2 = es ->
+  forall ops, adm_ops es Fresh ops ->
+  exists st1 st2 rs, run_ops ld1 root1 levels1 cs_fresh ops = Done (st1, rs) /\
+                     run_ops ld2 root2 levels2 cs_fresh ops = Done (st2, rs) /\
+                     Forall2 res_ok (snd (aspec_ops es Fresh ops)) rs.
+Proof. exact same_histories. Qed.
+Print Assumptions C10_same_content_same_histories.
+
+Theorem C10_same_content_same_ranges : forall ld1 ld2 root1 root2 levels1 levels2 bs1 bs2,
+  wf_store ld1 root1 levels1 bs1 -> wf_store ld2 root2 levels2 bs2 ->
+  forall es, content root1 levels1 bs1 = es -> content root2 levels2 bs2 = es ->
+  forall lo hi fuel, (S (length es) < fuel)%nat ->
+  collect (range_next (cstep ld1 root1 levels1) lo hi) fuel iter_new = Done (range_spec es lo hi) /\
+  collect (range_next (cstep ld2 root2 levels2) lo hi) fuel iter_new = Done (range_spec es lo hi) /\
+  collect (rev_range_next (cstep ld1 root1 levels1) lo hi) fuel iter_new = Done (rev (range_spec es lo hi)) /\
+  collect (rev_range_next (cstep ld2 root2 levels2) lo hi) fuel iter_new = Done (rev (range_spec es lo hi)).
+Proof. exact same_ranges. Qed.
+Print Assumptions C10_same_content_same_ranges.
+
+Theorem C10_same_content_same_prefixes : forall ld1 ld2 root1 root2 levels1 levels2 bs1 bs2,
+  wf_store ld1 root1 levels1 bs1 -> wf_store ld2 root2 levels2 bs2 ->
+  forall es, content root1 levels1 bs1 = es -> content root2 levels2 bs2 = es ->
+  forall p fuel, (S (length es) < fuel)%nat ->
+  collect (prefix_next (cstep ld1 root1 levels1) p) fuel iter_new = Done (prefix_spec es p) /\
+  collect (prefix_next (cstep ld2 root2 levels2) p) fuel iter_new = Done (prefix_spec es p) /\
+  (Forall (fun e => wf_bytes (fst e)) es -> wf_bytes p ->
+   collect (rev_prefix_next (cstep ld1 root1 levels1) p) fuel iter_new = Done (rev (prefix_spec es p)) /\
+   collect (rev_prefix_next (cstep ld2 root2 levels2) p) fuel iter_new = Done (rev (prefix_spec es p))).
+Proof. exact same_prefixes. Qed.
+Print Assumptions C10_same_content_same_prefixes.
+
+(* the version-1 twin of a single-level file of the writer model: the same body under the 21-byte
+   version-1 trailer opens as version 1 with the stored count and codec, and both files are
+   well-formed stores with the inserted entries as content — so the three theorems above apply *)
+Theorem C10_v1_twin : forall compress decompress c,
+  (forall b z, compress (wc_codec c) (wc_level c) b = Done z -> decompress (wc_codec c) z = Done b) ->
+  forall es i s lg m, wc_levels c = 0 -> 1 <= wc_interval c -> wc_codec c <= 5 ->
+  w_run_gen vsink vs_wr vs_fl vs_count compress c vs_empty es = (i, Done (s, lg, m)) ->
+  es <> [] -> sorted_strictb (map fst es) = true ->
+  len (vs_bytes s) < 2^64 -> mem_ok lg -> len es < 2^64 ->
+  exists body bs2 bs1,
+    vs_bytes s = body ++ trailer_bytes m /\
+    let f1 := body ++ v1_trailer m in
+    let m1 := mk_meta FormatV1 (m_root m) (m_codec m) (m_count m) 0 in
+    open_meta f1 = Done m1 /\ open_meta (vs_bytes s) = Done m /\ m_count m = len es /\ m_codec m = wc_codec c /\
+    wf_store (load_block decompress (vs_bytes s) (m_codec m)) (m_root m) (m_levels m) bs2 /\
+    content (m_root m) (m_levels m) bs2 = es /\
+    wf_store (load_block decompress f1 (m_codec m1)) (m_root m1) (m_levels m1) bs1 /\
+    content (m_root m1) (m_levels m1) bs1 = es.
+Proof. exact v1_twin. Qed.
+Print Assumptions C10_v1_twin.
